@@ -597,6 +597,118 @@ fn repeated_case(lang: SupportLang, fname: &str, host_text: &str, host_kind: u16
   Some(same_text && got.is_some())
 }
 
+fn named_leaf_tokens(n: &N) -> Vec<String> {
+  n.dfs().filter(|x| x.is_named() && x.children().len() == 0).map(|x| x.text().to_string()).collect()
+}
+
+/// `$$$RPT` written twice: the contents of two bracketed lists of one kind (arguments, arrays, parameter
+/// lists ...) are abstracted by the same ellipsis, then one list is emptied / shortened / replaced and the host
+/// re-parsed.  Whenever the pattern matches, both lists must hold the same named leaves (separators aside).
+pub fn repeated_multi_source(lang: SupportLang, fname: &str, src: &str, n_hosts: usize, rng: &mut crate::rng::Rng, rep: &mut Report) {
+  let grep = lang.ast_grep(src);
+  let root = grep.root();
+  let bracketed = |d: &N| -> Option<(usize, usize)> {
+    let kids: Vec<N> = d.children().collect();
+    if kids.len() < 2 || kids[0].is_named() || kids[kids.len() - 1].is_named() || kids[0].range().is_empty() || kids[kids.len() - 1].range().is_empty() {
+      return None;
+    }
+    Some((kids[0].range().end, kids[kids.len() - 1].range().start))
+  };
+  let mut hosts: Vec<N> = root.dfs().filter(|n| n.is_named() && n.range().len() >= 6 && n.range().len() <= 300 && !crate::util::has_error_or_missing(n)).collect();
+  rng.shuffle(&mut hosts);
+  let mut done = 0;
+  for host in hosts.into_iter().take(n_hosts * 8) {
+    if done >= n_hosts {
+      break;
+    }
+    let hs = host.range().start;
+    let lists: Vec<(N, (usize, usize))> = host.dfs().skip(1).filter(|d| d.is_named()).filter_map(|d| bracketed(&d).map(|b| (d, b))).collect();
+    let mut pair = None;
+    'find: for (i, (d1, b1)) in lists.iter().enumerate() {
+      for (d2, b2) in lists.iter().skip(i + 1) {
+        if d1.kind_id() == d2.kind_id() && d1.range().end <= d2.range().start {
+          pair = Some((d1.clone(), *b1, d2.clone(), *b2));
+          break 'find;
+        }
+      }
+    }
+    let Some((d1, b1, d2, b2)) = pair else { continue };
+    let host_text = host.text().to_string();
+    let (a0, a1, c0, c1) = (b1.0 - hs, b1.1 - hs, b2.0 - hs, b2.1 - hs);
+    let pattern = format!("{}$$$RPT{}$$$RPT{}", &host_text[..a0], &host_text[a1..c0], &host_text[c1..]);
+    let Ok(pat) = ast_grep_core::Pattern::try_new(&pattern, lang) else { continue };
+    {
+      let processed = lang.pre_process_pattern(&pattern);
+      let pg = lang.ast_grep(&*processed);
+      let pr = pg.root();
+      let e = lang.expando_char();
+      let mv = format!("{e}{e}{e}RPT");
+      if crate::util::has_error_or_missing(&pr) || pr.dfs().filter(|x| x.children().len() == 0 && x.text() == mv.as_str()).count() != 2 {
+        continue;
+      }
+    }
+    let (in1, in2) = (host_text[a0..a1].to_string(), host_text[c0..c1].to_string());
+    // list contents to try: empty, the other list, a list with its last / first element dropped
+    let mut contents: Vec<String> = vec![String::new(), in1.clone(), in2.clone()];
+    for d in [&d1, &d2] {
+      let named: Vec<N> = d.children().filter(|c| c.is_named()).collect();
+      if named.len() >= 2 {
+        contents.push(src[named[0].range().start..named[named.len() - 2].range().end].to_string());
+        contents.push(src[named[1].range().start..named[named.len() - 1].range().end].to_string());
+        contents.push(named[0].text().to_string());
+      }
+    }
+    contents.sort();
+    contents.dedup();
+    let mut judged = false;
+    for x in contents.iter().take(8) {
+      for y in contents.iter().take(8) {
+        let s2 = format!("{}{}{}{}{}", &host_text[..a0], x, &host_text[a1..c0], y, &host_text[c1..]);
+        let g2 = lang.ast_grep(&s2);
+        let r2 = g2.root();
+        let Some(h2) = node_at(&r2, 0, s2.len(), host.kind_id()) else { continue };
+        if crate::util::has_error_or_missing(&h2) {
+          continue;
+        }
+        // the two lists after re-parsing: same kind, starting where the originals started
+        let la = r2.dfs().find(|n| n.kind_id() == d1.kind_id() && n.range().start == d1.range().start - hs);
+        let shift = x.len() as isize - (a1 - a0) as isize;
+        let lb_start = (d2.range().start - hs) as isize + shift;
+        let lb = r2.dfs().find(|n| n.kind_id() == d2.kind_id() && n.range().start as isize == lb_start);
+        let (Some(la), Some(lb)) = (la, lb) else { continue };
+        let replay = json!({"monitor":"c04","mode":"repeated","lang":corpus::lang_name(lang),"file":fname,"pattern":pattern,"source":s2,"first":[la.range().start,la.range().end],"second":[lb.range().start,lb.range().end]});
+        let got = match guarded(|| pat.match_node(h2.clone()).is_some()) {
+          Ok(g) => g,
+          Err(p) => {
+            rep.violation(&format!("C04/panic/{}", p.site()), &format!("repeated ellipsis: panic at {}: {}", p.location, p.message), replay);
+            continue;
+          }
+        };
+        rep.evaluations += 1;
+        judged = true;
+        let (ta, tb) = (named_leaf_tokens(&la), named_leaf_tokens(&lb));
+        // identical text is identical code even where the grammar parses it differently by context
+        // (Haskell patterns vs expressions): only lists that also differ as text are claimed to differ
+        let squeeze = |t: &str| t.chars().filter(|c| !c.is_whitespace()).collect::<String>();
+        if ta != tb && squeeze(&la.text()) != squeeze(&lb.text()) {
+          rep.count("repeated.multi_differing_pairs", 1);
+          if ta.is_empty() || tb.is_empty() {
+            rep.count("repeated.multi_empty_vs_nonempty", 1);
+          }
+          if got {
+            rep.violation("C04/repeated-ellipsis/different-code-accepted", &format!("pattern `{}` matches `{}`: $$$RPT stands for `{}` and for `{}`", clip(&pattern, 120), clip(&s2, 120), clip(&la.text(), 50), clip(&lb.text(), 50)), replay);
+          }
+        }
+      }
+    }
+    if judged {
+      done += 1;
+      rep.count("repeated.multi_hosts", 1);
+      rep.nontrivial(hash_parts(&["repeated-multi", fname, &host_text]));
+    }
+  }
+}
+
 pub fn repeated_source(lang: SupportLang, fname: &str, src: &str, n_hosts: usize, rng: &mut crate::rng::Rng, rep: &mut Report) {
   let grep = lang.ast_grep(src);
   let root = grep.root();
@@ -687,7 +799,9 @@ pub fn run(ctx: &Ctx, rep: &mut Report) {
       rep.evaluations += 1;
       if let (Some(na), Some(nb)) = (find(f), find(g)) {
         let matched = root.dfs().any(|h| h.range().start == 0 && h.range().end == s2.len() && pat.match_node(h.clone()).is_some());
-        if matched && leaf_tokens(&na) != leaf_tokens(&nb) {
+        if matched && pattern.contains("$$$RPT") && named_leaf_tokens(&na) != named_leaf_tokens(&nb) {
+          rep.violation("C04/repeated-ellipsis/different-code-accepted", &format!("pattern `{}` matches `{}`", clip(pattern, 120), clip(s2, 120)), r.clone());
+        } else if matched && !pattern.contains("$$$RPT") && leaf_tokens(&na) != leaf_tokens(&nb) {
           rep.violation("C04/repeated-var/different-code-accepted", &format!("pattern `{}` matches `{}`", clip(pattern, 120), clip(s2, 120)), r.clone());
         }
       }
@@ -755,6 +869,7 @@ pub fn run(ctx: &Ctx, rep: &mut Report) {
     }
     // (c) one variable for two occurrences, judged by token sequences
     repeated_source(f.lang, &f.name, &text, if ctx.thorough { 400 } else { 40 }, &mut rng, rep);
+    repeated_multi_source(f.lang, &f.name, &text, if ctx.thorough { 200 } else { 25 }, &mut rng, rep);
     let h = rule::harvest(&root, &text, pats, vec![], &mut rng);
     for _ in 0..per_file {
       let doc = gen_doc(&h, None, &mut rng, 3);
